@@ -425,11 +425,24 @@ pub fn run_c18_b(ctx: &Ctx) -> Outcome {
                     if let Some(t) = ts {
                         explicit.lock().unwrap().insert(op, t);
                     }
-                    let _ = match rng.below(4) {
+                    let _ = match rng.below(6) {
                         0 => {
                             let mut st = Statement::new(T_INS);
                             st.set_timestamp(ts);
                             s.query_unpaged(st, vals).await.map(|_| ())
+                        }
+                        // the paging-iterator path builds its frames elsewhere
+                        4 => {
+                            let mut p = (*ins).clone();
+                            p.set_timestamp(ts);
+                            let _ = s.execute_iter(p, vals).await;
+                            Ok(())
+                        }
+                        5 => {
+                            let mut st = Statement::new(format!("INSERT INTO ks.cap (op, a, b, c) VALUES ({op}, 1, 'x', 2)"));
+                            st.set_timestamp(ts);
+                            let _ = s.query_iter(st, ()).await;
+                            Ok(())
                         }
                         3 => {
                             // no bound values: travels as a QUERY frame
